@@ -161,7 +161,7 @@ def generate(batch: str, r: Rng, idx: int, tier: str) -> Dict[str, Any]:
         ex = "rs-machine" if batch.startswith("rs") else "py-machine"
         feat = machine.gen_features(r.child("feat"), {"timers": True, "imr_writes": True, "isr_writes": True, "wait": True,
                                                       "halt": True, "ir": True, "calls": True, "far_calls": True,
-                                                      "nested": True, "off": False, "keys": False, "onk": False, "h_lowpower": True})
+                                                      "nested": True, "off": False, "keys": False, "onk": False, "h_lowpower": True, "selfmod": True})
         feat["timers"] = True
         # programs that read-modify-write the memory-card window: state an earlier machine of the same process left
         # behind anywhere outside itself would show in the next one
